@@ -108,8 +108,9 @@ def ambiguity(spec, v, mat):
             if ms[j]["k"] == "none":
                 continue
             Aj = mat.annotation(ms[j])
-            if tl.call(lambda: tl.marshaller(Aj)(v))[0] == "ok":
-                return "marshal-captured"
+            kj, wj = tl.call(lambda: tl.marshaller(Aj)(v))
+            if kj == "ok" and (kw != "ok" or snapshot(wj) != snapshot(w)):
+                return "marshal-captured"   # an earlier member writes the value differently
             if kw == "ok" and tl.call(lambda: tl.unmarshaller(Aj)(w))[0] == "ok":
                 return "unmarshal-captured"
         return A(ms[own], v)
